@@ -443,10 +443,8 @@ class Field(UniqueMixin, metaclass=FieldMeta):
                 or not TypedPyDefaults.defensive_copy_on_get
         ):
             return res
-        is_immutable = (
-            getattr(instance, IS_IMMUTABLE, False)
-            if instance is not None
-            else getattr(self, IS_IMMUTABLE, False)
+        is_immutable = getattr(self, IS_IMMUTABLE, False) or (
+            instance is not None and getattr(instance, IS_IMMUTABLE, False)
         )
         needs_defensive_copy = (
                 not isinstance(
